@@ -277,7 +277,8 @@ def _prinz_mle_py(C, tol=1e-10, max_iter=10**5):
                      (X_rs[i] - X[i, j]) *\
                      (X_rs[j] - X[i,j])
 
-                assert c <= 0
+                # c <= 0 holds up to rounding in the running row sums
+                assert c <= 1e-8 * (C[i, j] + C[j, i]) * X_rs[i] * X_rs[j]
 
 #                 /* the new value */
                 if (a == 0):
